@@ -94,8 +94,16 @@ def octets(big: bool = False) -> st.SearchStrategy[bytes]:
     return st.one_of(*parts)
 
 
+# text whose code points change under Unicode normalisation (NFC/NFD/NFKC), non-ASCII digits and letters, case-folding
+# oddities: libraries that "tidy" text (normalise, casefold, \d / \w in str patterns) are sensitive to exactly these
+NORMALISATION_SENSITIVE = ["e\u0301", "\u212b", "\uf900", "\u0958", "\u1100\u1161", "\u1e9b\u0323", "\ufb01", "\u00df", "\u0130", "\u01c5",
+                           "\u0663", "\uff11", "\u0e52", "\u00b2", "\u2160", "\u00aa", "\u0301", "\u200d", "\ufeff", "\u2028"]
+
+NORMALISATION_CHARS = sorted({c for x in NORMALISATION_SENSITIVE for c in x if ord(c) > 127})
+
 _TEXT_ALPHA = st.one_of(
     st.characters(exclude_categories=["Cs"]),
+    st.sampled_from(NORMALISATION_CHARS),
     st.sampled_from(list("abcdefgXYZ0123456789 =,.-_()*\\'\"\x00\n\t\x7fé€\U0001f600")),
 )
 
@@ -119,8 +127,9 @@ def long_unicode_text(draw: t.Any) -> str:
 
 
 def text(big: bool = False) -> st.SearchStrategy[str]:
+    tricky = st.lists(st.sampled_from(NORMALISATION_SENSITIVE + ["a", " ", "=", "1"]), min_size=1, max_size=4).map("".join)
     parts = [small_text(), small_text(), small_text(), small_text(), small_text(), small_text(), sized_text(BOUNDARY_SIZES),
-             sized_text(BOUNDARY_SIZES), long_unicode_text()]
+             sized_text(BOUNDARY_SIZES), long_unicode_text(), tricky]
     if big:
         parts.append(sized_text(BIG_SIZES))
     return st.one_of(*parts)
@@ -339,6 +348,29 @@ def _long(elem: t.Any, small: t.Any) -> t.Any:
     return st.integers(0, 15).flatmap(lambda k: long_run if k == 0 else small)
 
 
+def known_oids() -> t.List[str]:
+    """OIDs the library itself knows (extended operations, controls), harvested at run time, plus a few well-known ones:
+    code that special-cases an OID is only reached by inputs that carry it."""
+    out = ["1.3.6.1.4.1.1466.20036", "1.3.6.1.4.1.1466.20037", "1.3.6.1.4.1.4203.1.11.3", "1.3.6.1.4.1.4203.1.11.1", "1.3.6.1.1.8",
+           "1.2.840.113556.1.4.319", "1.2.840.113556.1.4.417", "1.2.840.113556.1.4.2065", "2.16.840.1.113730.3.4.2"]
+    try:
+        import enum
+
+        import sansldap
+
+        for v in vars(sansldap).values():
+            if isinstance(v, type) and issubclass(v, enum.Enum):
+                for m in v:
+                    if isinstance(m.value, str) and m.value[:1].isdigit() and "." in m.value and m.value not in out:
+                        out.append(m.value)
+            ct = getattr(v, "control_type", None)
+            if isinstance(ct, str) and ct and ct not in out:
+                out.append(ct)
+    except Exception:
+        pass
+    return out
+
+
 def message(kinds: t.Optional[t.Sequence[str]] = None, big: bool = False, filt: t.Any = None, ids: t.Any = None) -> st.SearchStrategy[t.Any]:
     F = filt if filt is not None else st.one_of(filters(), filters(), deep_filter((7, 40)))
     ID = ids if ids is not None else msg_ids()
@@ -364,12 +396,12 @@ def message(kinds: t.Optional[t.Sequence[str]] = None, big: bool = False, filt: 
             attributes=_long(st.sampled_from(["cn", "*", "1.1", "objectClass"]), st.lists(text(), max_size=4)),
         ),
         "searchResEntry": dict(name=T, attributes=_long(
-            st.tuples(st.sampled_from(["cn", "member"]), st.one_of(st.lists(O, max_size=2), st.just([b"v"] * 200))),
-            st.lists(st.tuples(text(), st.lists(O, max_size=3)), max_size=4))),
+            st.tuples(st.sampled_from(["cn", "member"]), st.lists(small_octets(4), max_size=2)),
+            st.lists(st.tuples(text(), st.one_of(st.lists(O, max_size=3), st.lists(O, max_size=3), st.just([b"v"] * 200), st.just([b"dup", b"dup"]))), max_size=4))),
         "searchResDone": dict(result=results(big)),
         "searchResRef": dict(uris=_long(st.sampled_from(["ldap://a/dc=x", ""]), st.lists(text(), max_size=4))),
-        "extendedReq": dict(name=text(), value=st.none() | O),
-        "extendedResp": dict(result=results(big), name=st.none() | text(), value=st.none() | O),
+        "extendedReq": dict(name=st.one_of(text(), text(), st.sampled_from(known_oids())), value=st.none() | O),
+        "extendedResp": dict(result=results(big), name=st.one_of(st.none(), text(), text(), st.sampled_from(known_oids())), value=st.none() | O),
     }
     ks = list(kinds) if kinds else list(by_kind)
     alts = []
